@@ -108,6 +108,8 @@ def apply_kind(kind, args, kwargs):
         return 0
     if kind == 'raise_ve':
         raise ValueError('catalogue')
+    if kind == 'raise_multiline':
+        raise ValueError('first line\n\n    ^^^\n~~~~\nlast line of the message')
     if kind == 'raise_glom':
         raise glom.GlomError('catalogue')
     if len(args) != 1 or kwargs:
